@@ -71,6 +71,16 @@ def generate(rng, tier):
         cases.append(_case(t, "handwritten"))
     for t in G.nesting_texts(rng):
         cases.append(_case(t, "nesting"))
+    # numbers at the overflow / underflow / integer-kind boundaries, as root, element and member value
+    for n in G.number_edges():
+        cases.append(_case(rng.choice([n, b"[" + n + b"]", b'{"limit":' + n + b"}", b"[0," + n + b" ]"]), "number-edge"))
+    # raw control bytes inside strings: after an escape, at every block distance from the opening and the closing quote
+    for body in G.ctrl_strings(rng, quick):
+        wrap = rng.choice([b'["%s"]', b'{"k":"%s"}', b'{"%s":1}', b'"%s"', b'[1,"%s" ,2]'])
+        cases.append(_case(wrap % body, "ctrl-in-string"))
+        if rng.random() < 0.3:
+            valid = bytes(b if b >= 0x20 else 0x20 for b in body)
+            cases.append(_case(wrap % valid, "ctrl-twin-valid"))
     return cases
 
 
